@@ -1,5 +1,5 @@
 """Shared pieces of the RTL checks (C03, C16, C06, C13): Verilated harness builds and record validation."""
-import os, json
+import re, os, json
 import vlib
 
 PROC_MODELS = {
@@ -49,9 +49,35 @@ def first_diff(f1, f2):
     return None
 
 
+def cmake_verilator_args():
+    """the extra Verilator options the repository's own build gives hextb (CMakeLists.txt: verilate(hextb ... VERILATOR_ARGS ...)), so that the
+    harness around hextb.cpp is the design as the repository builds it (value of 'x, initial values, ...)"""
+    try:
+        text = open(os.path.join(vlib.REPO, "CMakeLists.txt")).read()
+    except OSError:
+        return []
+    m = re.search(r'verilate\(\s*hextb\b(.*?)\)', text, re.S)
+    if not m:
+        return []
+    toks = m.group(1).split()
+    args = []
+    if 'VERILATOR_ARGS' in toks:
+        i = toks.index('VERILATOR_ARGS') + 1
+        while i < len(toks) and toks[i] not in ('SOURCES', 'INCLUDE_DIRS', 'TRACE', 'COVERAGE', 'PREFIX', 'TOP_MODULE', 'DIRECTORY', 'OPT_SLOW', 'OPT_FAST', 'OPT_GLOBAL', 'THREADS'):
+            args.append(toks[i]); i += 1
+    out = []; skip = False
+    for a in args:
+        if skip:
+            skip = False; continue
+        if a == '--top-module':
+            skip = True; continue
+        out.append(a)
+    return out
+
+
 def tb_exe():
     return vlib.build_verilated("tb_run", ["verilog/hex_pkg.sv", "verilog/hex.sv", "verilog/processor.sv", "verilog/memory.sv"], "hex", "tb_run.cpp",
-                                prefix="Vhex_pkg", vflags=["--trace"])
+                                prefix="Vhex_pkg", vflags=["--trace"] + cmake_verilator_args())
 
 
 def image_words(binpath):
